@@ -384,3 +384,37 @@ def c01_front(ctx, p):
     if any(t['kind'] == 'E' for t in r['tokens']):
         ctx.cover('tag-present')
     no_panic(ctx, lambda: ctx.impl.tree(src, ds, de), 'parser::parse')
+
+
+# ---------------------------------------------------------------- C09 (second half): quoted values are opaque for every removal decision
+@harness('c09_opaque', covers=['ready-element-with-opaque-value', 'pending-element-with-opaque-value', 'value-contains-blank-or-eq'])
+def c09_opaque(ctx, p):
+    from impl import default_cfg
+    q = ord(p['quote'])
+    val = ctx.bytes('val', p['n'], exclude=(q, 62))
+    cover_if(ctx, 'value-contains-blank-or-eq', b_or(isin(b, (32, 61, 10)) for b in val))
+    cfg = default_cfg(tl_tag=list(b't'), rm_tag=list(b'm'), targets=[list(b'x')], now=1704067200)
+    head, tail = p['head'], p['tail']
+    src = list(b'A<') + list(head.encode()) + [q] + val + [q] + list(tail.encode()) + list(b'>q</') + [ord(head[0])] + list(b'>B')
+    out = ctx.impl.clean(src, [60], [62], cfg)
+    if p['ready']:
+        ctx.cover('ready-element-with-opaque-value')
+        ctx.check(len(out) == 2 and out[0] == 65 and out[1] == 66, 'a quoted attribute value changed the removal decision of a ready element (or the strategy)',
+                  'quoted-value-changes-decision')
+    else:
+        ctx.cover('pending-element-with-opaque-value')
+        ctx.check(len(out) == len(src) and b_and(b_eq(a, b) if a is not b else True for a, b in zip(out, src)),
+                  'a quoted attribute value made a pending element removable', 'quoted-value-changes-decision')
+
+
+def c09_opaque_jobs(tier):
+    jobs = []
+    exp, fut = "to='2001-01-01 00:00:00'", "to='2999-01-01 00:00:00'"
+    shapes = [("m name='x' c=", "", True), ("m c=", " name='x'", True), ("m name='n' c=", "", False), ("t " + exp + " c=", "", True), ("t c=", " " + fut, False),
+              ("m name='x' c=", " d='1'", True), ("t c=", " " + exp + " e", True)]
+    for n in ((4,) if tier == 'quick' else (1, 2, 3, 4, 5, 6)):
+        for head, tail, ready in shapes:
+            for quote in ('"', "'"):
+                jobs.append(dict(harness='c09_opaque', label=f'opaque value |v|={n} <{head}{quote}…{quote}{tail}> ready={ready}',
+                                 params=dict(n=n, head=head, tail=tail, ready=ready, quote=quote)))
+    return jobs
